@@ -12,7 +12,7 @@ import (
 func init() { register("C05", "other", checkC05) }
 
 func checkC05(c *Ctx, r *Report) {
-	r.Explanation = "Decided: (a) key-size refusal: newCipher is reachable only behind len(key) == 16 in NewCipher, whose other arm returns (nil, KeySizeError); (b) the cipher does not retain the key slice (effect analysis: no store of a key-derived pointer, the assembler key schedule does not write or keep it); (c) sibling agreement of the two cipher.Block implementations: Encrypt hands field enc and Decrypt field dec to the kernel, with (rk, dst, src) resp. (src, dst, rk) in the callee's parameter roles; both key schedules fill enc[i] and dec[31-i] from the same value (portable: by SSA; assembler: both masked stores take the same source register, enc ascending from +0 and dec descending from +124, 32 pairs); (d) every kernel is overlap-safe for dst == src (LOAD-BEFORE-STORE, shared with C10); (d') lane dependency: in every amd64 kernel each stored output block depends on exactly the input block at the same position and on no other (block-dependency sets per 32-bit lane through loads, transposes, lane-wise rounds and stores); (e) the constants the kernels embed equal the portable ones (C18); (f) the dispatch variable candoAsm is written only by package initialisation. NOT decided: that any kernel computes the SM4 permutation."
+	r.Explanation = "Decided: (a) key-size refusal: newCipher is reachable only behind len(key) == 16 in NewCipher, whose other arm returns (nil, KeySizeError); (b) the cipher does not retain the key slice (effect analysis: no store of a key-derived pointer, the assembler key schedule does not write or keep it); (c) sibling agreement of the two cipher.Block implementations: Encrypt hands field enc and Decrypt field dec to the kernel, with (rk, dst, src) resp. (src, dst, rk) in the callee's parameter roles; both key schedules fill enc[i] and dec[31-i] from the same value (portable: by SSA; assembler: both masked stores take the same source register, enc ascending from +0 and dec descending from +124, 32 pairs); (d) every kernel is overlap-safe for dst == src (LOAD-BEFORE-STORE, shared with C10); (d') lane dependency: in every amd64 kernel each stored output block depends on exactly the input block at the same position and on no other (block-dependency sets per 32-bit lane through loads, transposes, lane-wise rounds and stores); (d'') the same for the portable two-block routine cryptoBlockX2, whose two blocks share 64-bit words: bit-level dependency sets through shifts, masks, rotations, table lookups and the inlined helpers; (e) the constants the kernels embed equal the portable ones (C18); (f) the dispatch variable candoAsm is written only by package initialisation. NOT decided: that any kernel computes the SM4 permutation."
 	r.Trusted = []string{"go/ssa", "assembler listing, opcode table", "lane semantics of the permute/unpack instructions used (checker/lanes.go)"}
 	for _, arch := range []string{"amd64", "arm64", "386"} {
 		p, err := LoadRepo(c.Repo, arch)
@@ -134,6 +134,7 @@ func checkC05(c *Ctx, r *Report) {
 	}
 	if p386, err := LoadRepo(c.Repo, "386"); err == nil {
 		c10PortableOverlap(r, p386)
+		c05GoLanes(r, p386)
 	}
 	// (f) dispatch variable
 	if pa, ea, _ := loadEffects(c, r, "amd64"); pa != nil {
